@@ -12,14 +12,14 @@
    empty (the observed log is a trace of the LTS).  [prop_ok] judges the property on the log
    alone; it includes that a batch reads the same when its callback returns as when it started. *)
 From Coq Require Import List ZArith Bool Orders Sorting.Mergesort FMapPositive.
-From GZ Require Export Lib.CheckLib C11.Model.
+From GZ Require Export Lib.CheckLib C11.Model C11.Containers.
 Import ListNotations.
 Open Scope Z_scope.
 
 (* long lists of consecutive task ids are written as runs (first, length) in the case terms *)
 Fixpoint zseq (t : Z) (n : nat) : list Z :=
   match n with O => [] | S n' => t :: zseq (t + 1) n' end.
-Definition runs (l : list (Z * nat)) : list Z := flat_map (fun p => zseq (fst p) (snd p)) l.
+Definition zruns (l : list (Z * nat)) : list Z := flat_map (fun p => zseq (fst p) (snd p)) l.
 
 Inductive act :=
 | AAdd (c : nat) (t : task) (w : Z)
@@ -47,10 +47,27 @@ Record icase := mkCase
   { cmaxw : Z; cinterval : Z; cbad : list task; cdrained : bool;
     cerr : bool;       (* the executor could not finish the history (no quiescence, shutdown never returned) *)
     cgateq : bool; cgates : bool; cn : nat;
+    ckd : ckind; cemp : cempty;   (* the instance's container (Containers.shape_of) *)
+    cremoved : list (batch * bval);
+       (* every value RemoveAll handed out during the history: the tasks the container put into it
+          and what reflect says about the value (kind, Len() of collections, IsZero()) *)
     csteps : list (act * obs) }.
 Definition case := list icase.
 
-Definition cfg_of (c : icase) : config := mkCfg (cmaxw c) (cinterval c) (cbad c).
+Definition cfg_of (c : icase) : config :=
+  container_cfg (cmaxw c) (cinterval c) (cbad c) (shape_of (ckd c) (cemp c)).
+
+Definition rkind_code (k : rkind) : Z :=
+  match k with
+  | KNil => 0 | KArray => 1 | KChan => 2 | KMap => 3 | KSlice => 4 | KStruct => 5 | KInt => 6
+  | KString => 7 | KBool => 8 | KPtr => 9 | KOther => 10
+  end.
+Definition bval_eqb (a b : bval) : bool :=
+  (rkind_code (bv_kind a) =? rkind_code (bv_kind b)) && (bv_len a =? bv_len b) &&
+  Bool.eqb (bv_zero a) (bv_zero b).
+(* the model's rendering of every batch handed out is what the executor saw *)
+Definition removed_ok (c : icase) : bool :=
+  forallb (fun r => bval_eqb (shape_of (ckd c) (cemp c) (fst r)) (snd r)) (cremoved c).
 
 (* ---------- serialisation (state equality for de-duplication) ---------- *)
 Definition zb (b : bool) : Z := if b then 1 else 0.
@@ -92,14 +109,21 @@ Definition digest : state -> list Z := ser_gen dig_batch.
 Definition mem_ser (x : list Z) (l : list (list Z)) : bool := existsb (zs_eqb x) l.
 
 (* ---------- controlled vs internal actions ---------- *)
-Definition gated_f (f : fpc) : option batch :=
-  match f with FExec (t :: h) => Some (t :: h) | _ => None end.
-Definition gated_c (p : cpc) : option batch :=
-  match p with CFl f _ => gated_f f | _ => None end.
-Definition gated_b (p : bpc) : option batch :=
+(* a callback parks iff Execute is called (hasTasks) and the batch holds tasks; Execute on a batch
+   without tasks (an idle aggregate of an unknown kind) returns at once: an internal action *)
+Definition gated_h (cfg : config) (h : batch) : option batch :=
+  match h with
+  | t :: h' => if runs cfg h then Some h else None
+  | [] => None
+  end.
+Definition gated_f (cfg : config) (f : fpc) : option batch :=
+  match f with FExec h => gated_h cfg h | _ => None end.
+Definition gated_c (cfg : config) (p : cpc) : option batch :=
+  match p with CFl f _ => gated_f cfg f | _ => None end.
+Definition gated_b (cfg : config) (p : bpc) : option batch :=
   match p with
-  | BExec (t :: h) => Some (t :: h)
-  | BTick f _ | BExit f => gated_f f
+  | BExec h => gated_h cfg h
+  | BTick f _ | BExit f => gated_f cfg f
   | _ => None
   end.
 
@@ -114,7 +138,7 @@ Definition gates := (bool * bool)%type.
 Definition internal_succs (cfg : config) (gq : gates) (s : state) : list state :=
   flat_map (fun c =>
     match nth_error (cl s) c with
-    | Some p => match gated_c p with
+    | Some p => match gated_c cfg p with
                 | Some _ => []
                 | None => match cstep cfg s c with Some s' => [s'] | None => [] end
                 end
@@ -122,7 +146,7 @@ Definition internal_succs (cfg : config) (gq : gates) (s : state) : list state :
     end) (seq 0 (length (cl s))) ++
   flat_map (fun b =>
     match nth_error (fl s) b with
-    | Some p => match gated_b p with
+    | Some p => match gated_b cfg p with
                 | Some _ => []
                 | None =>
                   if (fst gq && is_quit p) || (snd gq && is_stop p) then [] else
@@ -193,22 +217,22 @@ Definition explore (cfg : config) (gq : gates) (fuel : nat) (todo : list state) 
    implementation's callback read on return *)
 Definition release (cfg : config) (s : state) (m : Z) (endb : batch) : option state :=
   let cs := filter (fun c => match nth_error (cl s) c with
-                             | Some p => match gated_c p with Some h => bmin h =? m | None => false end
+                             | Some p => match gated_c cfg p with Some h => bmin h =? m | None => false end
                              | None => false end) (seq 0 (length (cl s))) in
   let bs := filter (fun b => match nth_error (fl s) b with
-                             | Some p => match gated_b p with Some h => bmin h =? m | None => false end
+                             | Some p => match gated_b cfg p with Some h => bmin h =? m | None => false end
                              | None => false end) (seq 0 (length (fl s))) in
   match cs, bs with
   | c :: _, _ =>
     match nth_error (cl s) c with
-    | Some p => match gated_c p with
+    | Some p => match gated_c cfg p with
                 | Some h => if zs_eqb h endb then Some (exec cfg s (EvC c)) else None
                 | None => None end
     | None => None
     end
   | [], b :: _ =>
     match nth_error (fl s) b with
-    | Some p => match gated_b p with
+    | Some p => match gated_b cfg p with
                 | Some h => if zs_eqb h endb then Some (exec cfg s (EvB b false)) else None
                 | None => None end
     | None => None
@@ -268,9 +292,9 @@ Definition sort_batches (l : list batch) : list batch := fold_right insert_batch
 
 Definition opt_list {A} (o : option A) : list A := match o with Some x => [x] | None => [] end.
 
-Definition parked_of (s : state) : list batch :=
-  sort_batches (flat_map (fun p => opt_list (gated_c p)) (cl s) ++
-                flat_map (fun p => opt_list (gated_b p)) (fl s)).
+Definition parked_of (cfg : config) (s : state) : list batch :=
+  sort_batches (flat_map (fun p => opt_list (gated_c cfg p)) (cl s) ++
+                flat_map (fun p => opt_list (gated_b cfg p)) (fl s)).
 
 Definition is_idle (p : cpc) : bool := match p with CIdle => true | _ => false end.
 Definition is_got (p : bpc) : bool := match p with BGot _ _ => true | _ => false end.
@@ -278,8 +302,8 @@ Definition is_got (p : bpc) : bool := match p with BGot _ _ => true | _ => false
 Definition is_bflush (p : bpc) : bool :=
   match p with BTick FEnter _ | BExit FEnter => true | _ => false end.
 
-Definition project (gq : gates) (n : nat) (s : state) : obs :=
-  mkObs (firstn n (map is_idle (cl s))) (parked_of s) (cont s) (csize s) (inflight s) (guarded s)
+Definition project (cfg : config) (gq : gates) (n : nat) (s : state) : obs :=
+  mkObs (firstn n (map is_idle (cl s))) (parked_of cfg s) (cont s) (csize s) (inflight s) (guarded s)
         (match cmd s with Some _ => true | None => false end)
         (tick s && existsb ticker_live (fl s)) (existsb is_got (fl s))
         (existsb is_bflush (fl s)) (fst gq && existsb is_quit (fl s))
@@ -307,11 +331,11 @@ Definition after_act (cfg : config) (n : nat) (S : list state) (a : act) : list 
 Definition macro (cfg : config) (gq : gates) (n : nat) (S : list state) (a : act) (o : obs) : option (list state) :=
   match a with
   | ANop => (* the candidates are quiescent already and nothing was done to this instance *)
-    Some (filter (fun s => obs_eqb (project gq n s) o) S)
+    Some (filter (fun s => obs_eqb (project cfg gq n s) o) S)
   | _ =>
     match explore cfg gq FUEL (after_act cfg n S a) with
     | None => None
-    | Some st => Some (dedup (filter (fun s => obs_eqb (project gq n s) o) st) [])
+    | Some st => Some (dedup (filter (fun s => obs_eqb (project cfg gq n s) o) st) [])
     end
   end.
 
@@ -327,6 +351,7 @@ Fixpoint follow (cfg : config) (gq : gates) (n : nat) (S : list state) (steps : 
 
 (* the observed log of one instance is a trace of the model (n real clients + the shutdown listener) *)
 Definition agrees_i (c : icase) : bool :=
+  removed_ok c &&
   follow (cfg_of c) (cgateq c, cgates c) (cn c) [init (S (cn c))] (csteps c).
 Definition agrees (cs : case) : bool := forallb agrees_i cs.
 
@@ -339,7 +364,7 @@ Fixpoint follow_diag (cfg : config) (gq : gates) (n : nat) (S : list state) (ste
     match macro cfg gq n S a o with
     | Some (s :: S') => follow_diag cfg gq n (s :: S') rest (i + 1)
     | _ => (i, match explore cfg gq FUEL (after_act cfg n S a) with
-               | Some st => map (project gq n) st | None => [] end)
+               | Some st => map (project cfg gq n) st | None => [] end)
     end
   end.
 Definition model_obs_i (c : icase) : Z * list obs :=
